@@ -92,9 +92,9 @@ run_guarded() {
   local id="$1"; shift
   local out="$BUILD/$id.$$.out"
   # a last-resort limit: quick checks take 1-2 minutes, thorough ones up to an hour; a check that
-  # is still running after 30 min / 4 h is hanging inside the code under test (e.g. a deadlocked
+  # is still running after 15 min / 4 h is hanging inside the code under test (e.g. a deadlocked
   # worker pool), which is reported as a violation of the property being checked
-  local limit=1800
+  local limit=900
   [ "${VERIF_TIER:-quick}" = thorough ] && limit=14400
   timeout --signal=KILL "$limit" "$@" 2>&1 | tee "$out"
   local code=${PIPESTATUS[0]}
